@@ -1024,7 +1024,11 @@ func (c *Conn) handleBdat(arg string) {
 	discardChunk := func() {
 		if n, err := strconv.ParseUint(args[0], 10, 32); err == nil {
 			c.lineLimitReader.LineLimit = 0
-			io.Copy(ioutil.Discard, io.LimitReader(c.text.R, int64(n)))
+			if m, _ := io.Copy(ioutil.Discard, io.LimitReader(c.text.R, int64(n))); m < int64(n) {
+				// The rest of the chunk could not be skipped (read timeout,
+				// connection error) and would be taken for commands later.
+				c.Close()
+			}
 			c.lineLimitReader.LineLimit = c.server.MaxLineLength
 		}
 	}
@@ -1057,7 +1061,11 @@ func (c *Conn) handleBdat(arg string) {
 
 		// Discard chunk itself without passing it to backend.
 		c.lineLimitReader.LineLimit = 0
-		io.Copy(ioutil.Discard, io.LimitReader(c.text.R, int64(size)))
+		if m, _ := io.Copy(ioutil.Discard, io.LimitReader(c.text.R, int64(size))); m < int64(size) {
+			// The rest of the chunk could not be skipped (read timeout,
+			// connection error) and would be taken for commands later.
+			c.Close()
+		}
 		c.lineLimitReader.LineLimit = c.server.MaxLineLength
 
 		c.reset()
